@@ -77,8 +77,10 @@ CRVALS = [(40.0, 20.0), (0.0, 0.0), (266.0, -29.0), (120.0, 80.0)]
 OFFSETS = [(0.0, 0.0), (30.0, -40.0), (250.0, 150.0)]
 ANGLES = [0.0, 33.0, 90.0, 120.0, -45.0]
 NPIX = [1.0, 3.0, 10.0, 50.0]
-PAIRS = [(1.0, 3.0), (3.0, 1.0), (3.0, 10.0), (10.0, 3.0), (10.0, 50.0), (50.0, 10.0)]
-ANN_PAIRS = [((1.0, 3.0), (3.0, 10.0)), ((3.0, 1.0), (10.0, 3.0)), ((3.0, 10.0), (10.0, 50.0)), ((10.0, 10.0), (50.0, 30.0))]
+# (10, 10): a square has an orientation, a round ellipse has none -- equal sizes are a value like any other
+PAIRS = [(1.0, 3.0), (3.0, 1.0), (3.0, 10.0), (10.0, 3.0), (10.0, 50.0), (50.0, 10.0), (10.0, 10.0)]
+ANN_PAIRS = [((1.0, 3.0), (3.0, 10.0)), ((3.0, 1.0), (10.0, 3.0)), ((3.0, 10.0), (10.0, 50.0)), ((10.0, 10.0), (50.0, 30.0)),
+             ((3.0, 3.0), (10.0, 10.0))]
 CIRC_ANN = [(1.0, 3.0), (3.0, 10.0), (10.0, 50.0), (1.0, 50.0)]
 NAME = {'circle': 'CirclePixelRegion', 'ellipse': 'EllipsePixelRegion', 'rectangle': 'RectanglePixelRegion',
         'circleannulus': 'CircleAnnulusPixelRegion', 'ellipseannulus': 'EllipseAnnulusPixelRegion',
@@ -120,12 +122,17 @@ def region_specs():
         for (wd, ht) in PAIRS:
             for a in ANGLES:
                 out.append({'cls': cls, 'width': wd, 'height': ht, 'angle': a})
+                if wd == ht:
+                    out.append({'cls': cls, 'width': wd, 'height': ht, 'angle': a, 'units': 'same'})
     for (ri, ro) in CIRC_ANN:
         out.append({'cls': 'circleannulus', 'inner_radius': ri, 'outer_radius': ro})
     for cls in ('ellipseannulus', 'rectangleannulus'):
         for ((wi, hi), (wo, ho)) in ANN_PAIRS:
             for a in ANGLES:
                 out.append({'cls': cls, 'inner_width': wi, 'inner_height': hi, 'outer_width': wo, 'outer_height': ho, 'angle': a})
+                if wi == hi and wo == ho:
+                    out.append({'cls': cls, 'inner_width': wi, 'inner_height': hi, 'outer_width': wo, 'outer_height': ho, 'angle': a,
+                                'units': 'same'})
     return out
 
 
@@ -138,6 +145,9 @@ def build_sky(spec, c, scale):
     UN = {'radius': u.arcsec, 'inner_radius': u.arcmin, 'outer_radius': u.arcsec, 'width': u.arcsec, 'height': u.arcmin,
           'inner_width': u.arcsec, 'outer_width': u.deg, 'inner_height': u.arcmin, 'outer_height': u.mas}
     q = lambda name: (spec[name] * scale * u.deg).to(UN[name])      # noqa
+    if spec.get('units') == 'same':
+        # ... and a shape whose sizes are EQUAL has them bit-identical in one unit (so that the library sees them equal)
+        q = lambda name: (spec[name] * scale * 3600.0) * u.arcsec      # noqa
     if cls == 'circle':
         return R.CircleSkyRegion(c, q('radius'))
     if cls == 'circleannulus':
@@ -204,7 +214,7 @@ def check_config(res, spec, off, ws):
     for name, val in (('cls', cls), ('proj', ws['proj']), ('rot', ws['rot']), ('scale', scale), ('frame', ws['frame']),
                       ('crval', tuple(ws['crval'])), ('offset', tuple(off)), ('angle', spec.get('angle', 'n/a'))):
         res.axis(name, val)
-    sizes = [v for k, v in spec.items() if k not in ('cls', 'angle')]
+    sizes = [v for k, v in spec.items() if k not in ('cls', 'angle', 'units')]
     maxsize = max(sizes)
     theta = scale * W.DEG * (math.hypot(off[0], off[1]) + maxsize)
     rel = 1e-6 + 2.0 * theta * theta
